@@ -16,7 +16,9 @@ LEVEL_TEXT = ("Theorems over all layouts of the universe and all well-formed val
               "Every run also encodes/decodes generated values of all 65 types with the real code and compares bytes with the table's encoder.")
 LEVEL_NOTE = ("send/recv of transport.go (7-byte header, vectors, FixedSize split) are a HAND model (Codec/Frame.v): C01_frame is a theorem about that model; it is tied to the Go "
               "send/recv only differentially (every case goes through the real send and recv; raw frames incl. short bodies must be rejected exactly as the model says, as part of the "
-              "property predicate) plus the constants. The encode/decode METHODS are read by the translator (generated-table obligation). 'Every request the client can issue / every "
+              "property predicate) plus the constants, and since round 5 by C01_frame_shape: go2coq reads send and recv BY ROLE (header writers/readers in order with widths, vector order, "
+              "summands of the total, the size checks before lookup, the FixedSize split) and the result must equal a hand-written table of what Frame.v stands for, so an edit of "
+              "transport.go re-opens an obligation; that Frame.v computes what the table says is by inspection, not a theorem. The encode/decode METHODS are read by the translator (generated-table obligation). 'Every request the client can issue / every "
               "reply the server can produce' is tested (one live session per version), not proved. Trusted: Coq kernel + vm_compute; go2coq CodecGen (its reading of the method bodies is itself cross-checked by the differential cases: "
               "the generated tables must reproduce the real bytes); Spec9P.v is a hand transcription of the protocol documents; "
               "Go semantics of append/slicing/binary.LittleEndian in buffer.go (bodies matched textually, modelled by le_enc/le_dec/take).")
@@ -380,7 +382,7 @@ def run(ctx):
         "distinct_nontrivial": distinct,
         "rule": "quick tier, per registered type: zero / max / 2 edge / 2 random values by reflection, max-then-zero into the recycled object, a 256-byte string "
                 "(65535 bytes for 9 types, 255/32767/32768 too for Twalk/Tversion/Rreaddir), lists of 16 and 1000 elements, one 64 KiB payload, msize and msize-1; "
-                "Rreaddir exact-fit corpus; every ~16th..each frame byte overwritten, trailing bytes, short body, short stream, bad sizes, type bytes; "
+                "Rreaddir exact-fit corpus and prefix-fit corpus (an entry that does not fit followed by shorter ones that would, 13 counts x 2 orders); every ~16th..each frame byte overwritten, trailing bytes, short body, short stream, bad sizes, type bytes; "
                 "a real Client/Server session at versions 0 and 7 (thorough: 40 random, all five string lengths for every type, 65535-element lists, 1 MiB payload, "
                 "every byte of 3 frames). distinct_nontrivial = distinct (frame bytes, msize) among cases where a body-level encode/decode ran on non-zero content "
                 "(sent body not all zero; received frame delivered or rejected as invalid)",
